@@ -15,8 +15,8 @@ from .common import fl, close
 
 PROP = "C20"
 META = {
-    "bounds": {"quick": "tables of 3 subjects x 2 groups x 1 metric and 2 subjects x 2 groups x 2 metrics; every cell a free real or missing (all 2^cells presence patterns); every permutation of the subject order",
-               "thorough": "4 subjects x 2 groups x 1 metric, 3 x 2 x 2"},
+    "bounds": {"quick": "tables of 3 subjects x 2 groups x 1 metric and 2 subjects x 2 groups x 2 metrics; every cell a free real or missing (all 2^cells presence patterns); a swap and a rotation of the 3 subjects, the swap of the 2 subjects",
+               "thorough": "3 x 2 x 1 (every subject order), 2 x 2 x 2, and 4 subjects x 2 groups x 1 metric under three subject orders (a swap, the reversal, a rotation)"},
     "stubs": ["np.std := trusted; fresh non-negative real per (multiset of arguments, ddof) with an obligation on the arguments (exactly the present values, ddof=0)"],
     "assumptions": ["float summation order is not modelled (exact reals)", "tables larger than the bound are outside the claim"],
     "nontrivial_rule": "presence patterns with at least one missing and one present cell in some column",
@@ -24,13 +24,16 @@ META = {
 
 
 def cases(tier):
-    dims = [(3, 2, 1), (2, 2, 2)] if tier == "quick" else [(4, 2, 1), (3, 2, 2)]
+    # (4x2x1 with all 23 orders and 3x2x2 were planned for the thorough tier: ~45 minutes without finishing; reduced as below)
+    dims = [(3, 2, 1), (2, 2, 2)] if tier == "quick" else [(3, 2, 1), (2, 2, 2), (4, 2, 1)]
     out = [{"name": "from_file_2x1x2", "what": "from_file", "S": 2, "kinds": True}]
     for S, G, M in dims:
         for pi, perm in enumerate(itertools.permutations(range(S))):
             if perm == tuple(range(S)):
                 continue
             if tier == "quick" and S == 3 and perm not in ((1, 0, 2), (2, 0, 1)):
+                continue
+            if S == 4 and perm not in ((1, 0, 2, 3), (3, 2, 1, 0), (1, 2, 3, 0)):
                 continue
             # split the 2^cells presence patterns over several worker processes by fixing three cells
             for bits in itertools.product((False, True), repeat=3):
